@@ -626,6 +626,20 @@ Section SvgTree.
     : option (list result) :=
     mapM (doc_entry c) (paths_from_group c root target).
 
+  (* recursive=False: desired groups = the route and the group itself *)
+  Definition from_group_nr (root : node) (target : position) : list out :=
+    flatten_stack_f (fun p => is_prefix p target)
+                    (fun p => negb (strict_prefix (parent_of p) target)) root.
+  Definition paths_from_group_nr (c : cfg) (root : node) (target : position) : list out :=
+    if f_group_empty c then from_group_nr root target
+    else match node_at root target with
+         | Some (Group _ []) => from_group_nr root []
+         | _ => from_group_nr root target
+         end.
+  Definition doc_paths_from_group_nr (c : cfg) (root : node) (target : position)
+    : option (list result) :=
+    mapM (doc_entry c) (paths_from_group_nr c root target).
+
   (* reference for paths_from_group: walk down to the group, multiplying the
      transforms of its strict ancestors, then flatten it *)
   Fixpoint subtree_at (n : node) (t : position) (M0 : mat) : option (node * mat) :=
@@ -646,6 +660,26 @@ Section SvgTree.
     | Some (g, M) => Some (flatten_ref g M)
     | None => None
     end.
+
+  (* recursive=False: only the shapes that are children of the group itself *)
+  Definition direct_ref (n : node) (M : mat) : list out :=
+    match n with
+    | Group tf kids =>
+        flat_map (fun ch => match ch with
+                            | Shape k a t => [(k, a, mmul (mmul M (tlist_spec tf)) (tlist_spec t))]
+                            | Group _ _ => []
+                            end) kids
+    | Shape _ _ _ => flatten_ref n M
+    end.
+  Definition ref_from_group_nr (root : node) (target : position) : option (list out) :=
+    match subtree_at root target mI with
+    | Some (g, M) => Some (direct_ref g M)
+    | None => None
+    end.
+
+  (* SaxDocument.generate_dom: the six numbers written into transform="matrix( ... )":
+     matrix[0][0], [1][0], [0][1], [1][1], [0][2], [1][2] *)
+  Definition sax_dom_matrix (M : mat) : list K := [m11 M; m21 M; m12 M; m22 M; m13 M; m23 M].
 
   (* the reference for a whole document: the shape's path, mapped by the CTM *)
   Definition ref_entry (o : out) : nat * option (list seg) * mat :=
